@@ -685,6 +685,62 @@ enum BorrowAdj<'a> {
     T(u8, #[serde(borrow)] &'a str),
 }
 
+/// Serialised through `Serializer::collect_str` (what `serialize_with` / Display-based impls do),
+/// deserialised as an ordinary string.
+#[derive(Debug, PartialEq)]
+struct ViaDisplay(String);
+
+impl Serialize for ViaDisplay {
+    fn serialize<S: serde::Serializer>(&self, s: S) -> Result<S::Ok, S::Error> {
+        s.collect_str(&self.0)
+    }
+}
+impl<'de> Deserialize<'de> for ViaDisplay {
+    fn deserialize<D: serde::Deserializer<'de>>(d: D) -> Result<Self, D::Error> {
+        String::deserialize(d).map(ViaDisplay)
+    }
+}
+
+#[derive(Serialize, Deserialize, Debug, PartialEq)]
+struct HasDisplay {
+    id: u8,
+    text: ViaDisplay,
+    tail: Vec<ViaDisplay>,
+}
+
+fn collect_str_case(rep: &mut Report, seed: u64, i: u64) {
+    rep.eval();
+    let mut rng = Rng::derive("c17/collect_str", seed, 0, i);
+    let mk = |rng: &mut Rng| -> String {
+        let n = *rng.pick(&[0usize, 1, 23, 24, 63, 64, 65, 127, 128, 255, 256, 300, 1000]) + rng.usize_below(3);
+        gen::gen_string_len(rng, n)
+    };
+    let v = HasDisplay { id: i as u8, text: ViaDisplay(mk(&mut rng)), tail: (0..rng.below(3)).map(|_| ViaDisplay(mk(&mut rng))).collect() };
+    let rp = vec!["c17".into(), "--seed".into(), seed.to_string(), "--replay".into(), "CollectStr".into(), i.to_string()];
+    let r = mon::guarded(|| {
+        let bytes = minicbor_serde::to_vec(&v).map_err(|e| e.to_string())?;
+        let want = Item::map(vec![
+            (Item::text("id"), Item::uint(v.id as u64)),
+            (Item::text("text"), Item::text(&v.text.0)),
+            (Item::text("tail"), Item::array(v.tail.iter().map(|t| Item::text(&t.0)).collect())),
+        ])
+        .encode();
+        if bytes != want {
+            return Err(format!("representation {} != {} (strings written through collect_str are text strings of known length)", hex(&bytes[..bytes.len().min(80)]), hex(&want[..want.len().min(80)])));
+        }
+        let w: HasDisplay = minicbor_serde::from_slice(&bytes).map_err(|e| format!("deserialising failed: {}", e))?;
+        if w != v {
+            return Err("value differs".into());
+        }
+        Ok(())
+    });
+    match r {
+        Err(p) => viol(rep, "CollectStr", "panic", "", p.message, &[], &rp),
+        Ok(Err(e)) => viol(rep, "CollectStr", "roundtrip", "", e, &[], &rp),
+        Ok(Ok(())) => rep.count("collect_str round trip"),
+    }
+}
+
 fn borrowed_any_case(rep: &mut Report, seed: u64, i: u64) {
     let mut rng = Rng::derive("c17/borrowed-any", seed, 0, i);
     let s: String = g(&mut rng);
@@ -760,6 +816,7 @@ pub fn run(a: &Args, rep: &mut Report) {
         if a.mine(i) {
             borrowed_case(rep, a.seed, i);
             borrowed_any_case(rep, a.seed, i);
+            collect_str_case(rep, a.seed, i);
         }
     }
 }
@@ -769,6 +826,9 @@ pub fn replay(a: &Args, rep: &mut Report) {
     let i: u64 = a.replay[1].parse().unwrap();
     if want == "Borrowed" {
         return borrowed_case(rep, a.seed, i);
+    }
+    if want == "CollectStr" {
+        return collect_str_case(rep, a.seed, i);
     }
     if want == "BorrowedAny" {
         return borrowed_any_case(rep, a.seed, i);
